@@ -917,13 +917,20 @@ def contexts_active_in_frame(
         try:
             ret = _contexts_active_by_trickery(frame)
         except Exception as ex:
+            try:
+                detail = repr(ex)
+            except Exception:
+                detail = f"<{type(ex).__name__} whose repr() failed>"
             warnings.warn(
-                "Inspection trickery failed on frame {!r}: {!r}. "
+                "Inspection trickery failed on frame {!r}: {}. "
                 "Information about context managers will be less detailed. "
-                "Please file a bug.".format(frame, ex),
+                "Please file a bug.".format(frame, detail),
                 InspectionWarning,
             )
-            traceback.print_exc()
+            try:
+                traceback.print_exc()
+            except Exception:
+                pass  # e.g. sys.stderr is a closed file
             ret = _contexts_active_by_referents(frame, origin)
     else:
         ret = _contexts_active_by_referents(frame, origin)
